@@ -151,7 +151,7 @@ func (v *resView) project(prop string) string {
 	return ""
 }
 
-var engineProps = []string{"C01", "C02", "C03", "C04", "C05", "C09", "C10", "C11", "C12", "C17"}
+var engineProps = []string{"C01", "C02", "C03", "C04", "C05", "C09", "C10", "C11", "C12", "C17", "C19"}
 
 func nodeStats(n *eng.Node, depth int, h map[string]int, maxDepth *int) (nodes int, catches int, posts int) {
 	if depth > *maxDepth {
@@ -195,6 +195,8 @@ func engineGen(g *eng.Gen, variant string, i int) {
 	case "pre":
 		g.Pre = true
 		g.CatchBias = i%3 == 1
+	case "nested":
+		g.NestedDefaults = true
 	case "api":
 		// the less travelled parts of the public API: WithCoercer on every schema kind (also through Ptr),
 		// custom and Preprocess schemas used directly
@@ -207,6 +209,14 @@ func engineGen(g *eng.Gen, variant string, i int) {
 	}
 }
 
+// engineCase generates case i of the engine stream
+func engineCase(g *eng.Gen, variant string, i int) *eng.Case {
+	if variant == "nested" && i%3 == 0 {
+		return g.AliasCase(i)
+	}
+	return g.Case(i)
+}
+
 // regenerateEngineCase rebuilds case `idx` of the stream and executes it on the implementation.
 func regenerateEngineCase(seed uint64, variant string, idx int) (string, string) {
 	root := rng.New(seed)
@@ -215,7 +225,7 @@ func regenerateEngineCase(seed uint64, variant string, idx int) (string, string)
 		g = &eng.Gen{R: root.Fork()}
 	}
 	engineGen(g, variant, idx)
-	c := g.Case(idx)
+	c := engineCase(g, variant, idx)
 	res := eng.Run(c)
 	return c.Line(res.Order), res.Sx(c.ID).String()
 }
@@ -230,7 +240,7 @@ func streamEngine(seed uint64, n int, driver, corpus, dump, variant string) (*Su
 	for i := 0; i < n; i++ {
 		g := &eng.Gen{R: root.Fork()}
 		engineGen(g, variant, i)
-		c := g.Case(i)
+		c := engineCase(g, variant, i)
 		res := eng.Run(c)
 		cases = append(cases, c)
 		impls = append(impls, res)
